@@ -29,6 +29,7 @@ type LoopSpec struct {
 type PParam struct{ Name, Type string }
 
 type PureFunc struct {
+	Rec    bool // rec func: a recursive definition (define-fun-rec), not a macro
 	Name   string
 	Params []PParam
 	Result string
@@ -237,11 +238,12 @@ func ParseContractFile(path string) (*PkgContracts, error) {
 				return nil, fmt.Errorf("%s:%v", path, err)
 			}
 			pc.Domains = append(pc.Domains, c)
-		case "pure":
+		case "pure", "rec":
 			pf, err := parsePure(rest, it.line)
 			if err != nil {
 				return nil, fmt.Errorf("%s:%v", path, err)
 			}
+			pf.Rec = kw == "rec"
 			pc.Pures[pf.Name] = pf
 			pc.PureOrder = append(pc.PureOrder, pf.Name)
 		case "func":
